@@ -35,6 +35,8 @@ CHECKS = {
          'explicit-state search over call histories + stateless preemption-bounded schedule exploration of real threads'),
  'C11': ('exploration', '4 C11', 'A menu of 19 LALR feature grammars (flag cube, imports, templates, priorities, 130 terminals, two start symbols, bytes, newline terminals) + LALR-acceptable SHAPE members x lexer x option sets x four implementations (direct, save/load through pickle bytes, cache hit on a path shared between option sets, stand-alone module executed in a fresh namespace) x parse / interactive feed with accepts() at every step / scan x every input up to the bound: canonical observations (trees with positions and meta, or error class/position/sets) must be equal.',
          'bounded exhaustive differential enumeration of (grammar, options, implementation, operation, input)'),
+ 'C12': ('fault_enumeration', '4 C12', 'On real cache files: every truncation offset and every single-bit flip (quick: 2 masks, thorough: all 8) of the valid file for several (grammar, options) pairs, each followed by Lark(g, cache=path) under a CPU watchdog and an address-space limit: the constructor must return, the instance must behave like the uncached build on all inputs up to the bound, and the file must be valid afterwards (next construction loads without calling load_grammar). Plus every history of <= 3 (thorough 4) events build(g_i,o_j) / edit_import / shadow_import / bump lark or Python version / truncate / garbage on one shared path.',
+         'exhaustive fault enumeration (all crash points / bit flips of a cache file) + explicit-state search over build histories'),
 }
 NOT_YET = {}
 def main():
